@@ -10,11 +10,12 @@ sys.path.insert(0, os.path.dirname(os.path.abspath(__file__)))
 import structgen
 
 PER_TU = 40
+BUDGETS = [8, 20, 20, 40, 40, 80, 80, 120, 120, 200, 300]   # states per structure; the two largest make STATE_COUNT / COMPO_PRONGS / TASK_CAPACITY exceed 255
 
 
 def random_spec(rng):
-    """wider / deeper / larger than the executable zoo: up to ~120 states, width <= 12, depth <= 6, width-1 regions allowed"""
-    budget = [rng.choice([8, 20, 40, 80, 120])]
+    """wider / deeper / larger than the executable zoo: up to ~300 states (counts beyond 8-bit range), width <= 12, depth <= 6, width-1 regions allowed"""
+    budget = [0]
 
     def region(depth):
         ortho = rng.random() < 0.3
@@ -33,10 +34,10 @@ def random_spec(rng):
         return '%s[%s]' % (ch, ''.join(subs))
 
     for _ in range(200):
-        budget[0] = rng.choice([8, 20, 40, 80, 120])
+        budget[0] = rng.choice(BUDGETS)
         s = region(0)
         nodes = structgen.number(structgen.parse(s))
-        if any(n.kind == 'C' for n in nodes) and len(nodes) <= 125:
+        if any(n.kind == 'C' for n in nodes) and len(nodes) <= 320:
             return s
     return 'C[..]'
 
@@ -145,7 +146,7 @@ def run(tier, seed, repo, build, out, flavours, zoo):
     sizes = [len(structgen.number(structgen.parse(s))) for s in specs]
     asserts = sum(2 * len(structgen.number(structgen.parse(s))) for s in specs)
     cov = dict(evaluations=len(specs) * (2 if 'dev' in flavours else 1), distinct_nontrivial=len(set(nt)),
-               rule='case = one generated machine structure (grammar in tools/structgen.py; up to 125 states, width <= 12, depth <= 7, headless regions, width-1 regions, all root kinds) spelled twice; '
+               rule='case = one generated machine structure (grammar in tools/structgen.py; up to 320 states, width <= 12, depth <= 7, headless regions, width-1 regions, all root kinds) spelled twice; '
                     'oracle = static_asserts on stateId/regionId of every named state and on STATE/REGION/COMPO/ORTHO counts, ORTHO_UNITS, COMPO_PRONGS, SERIAL_BITS, TASK_CAPACITY computed by an independent DFS; '
                     'non-trivial = has a region of width >= 3 nested inside a non-first prong; distinct = distinct structure strings',
                samples=specs[12:18], classes=dict(structures=len(specs), max_states=max(sizes), mean_states=sum(sizes) // len(sizes), approx_static_asserts=asserts,
